@@ -282,3 +282,26 @@ def replay(path):
             return 1 if failed else 0
         finally:
             common.remove_scratch(pid)
+
+
+def setup():
+    """Pre-build the dependency graph of the three crates with kani-compiler into the shared target dir
+    (registry crates are shared by every property's scratch tree) and warm Verus. Offline."""
+    t0 = time.time()
+    os.makedirs(common.KANI_TARGET, exist_ok=True)
+    rc_all = 0
+    with common.Lock(os.path.join(common.SCRATCH_BASE, "SETUP.lock")):
+        try:
+            tree, hooks, _ = common.make_scratch("SETUP", [os.path.join(ROOT, "kani", "_base")])
+            for crate in ("scylla-cql-core", "scylla-cql", "scylla"):
+                cmd = ["cargo", "kani", "-p", crate, "--target-dir", common.KANI_TARGET, "--only-codegen"] + kani.KANI_FLAGS
+                rc, out, secs, reason = common.run(cmd, cwd=tree, timeout=7200)
+                print(f"setup: kani build of {crate}: rc={rc} {secs:.0f}s", flush=True)
+                if rc != 0:
+                    print(out[-3000:])
+                    rc_all = 1
+        finally:
+            common.remove_scratch("SETUP")
+    rc, out, secs, reason = common.run(["verus", "--version"], timeout=120)
+    print(out.strip().splitlines()[0] if out else "verus?", f"setup wall {time.time()-t0:.0f}s")
+    return rc_all
